@@ -288,7 +288,7 @@ def merge(c, a, b):
         return b_ite(c, a, b)
     if ta is BV and tb is BV:
         if a.w != b.w:
-            raise MergeFail('bv width %s %s' % (a, b))
+            raise MergeFail('bv width %d / %d' % (a.w, b.w))
         if a.concrete and b.concrete and a.v == b.v:
             return a
         if not a.concrete and not b.concrete and a.v.eq(b.v):
@@ -323,14 +323,14 @@ def merge(c, a, b):
     if ta is Ref and tb is Ref:
         if a.key() == b.key():
             return a
-        raise MergeFail('distinct references %s / %s' % (a, b))
+        raise MergeFail('distinct references %s%s / %s%s' % (a.addr, [e[0] for e in a.path], b.addr, [e[0] for e in b.path]))
     if ta is Str and tb is Str and a.s == b.s:
         return a
     if ta is Opaque and tb is Opaque:
         return a
     if ta is int and tb is int and a == b:
         return a
-    raise MergeFail('cannot merge %r with %r' % (a, b))
+    raise MergeFail('cannot merge %s with %s' % (type(a).__name__, type(b).__name__))
 
 
 def _zi(e):
@@ -448,7 +448,7 @@ class Executor:
         return list(self.by_method.get(meth, []))
 
     def fn_by_name(self, name, nparams=None):
-        fl = self.fns.get(name) or [f for n, l in self.fns.items() if n.endswith('::' + name) or n == name for f in l]
+        fl = self.fns.get(name) or [f for n, l in self.fns.items() if (n.endswith('::' + name) or n == name) and 'verif' not in n for f in l]
         if nparams is not None:
             fl = [f for f in fl if len(f.params) == nparams]
         if len(fl) != 1:
@@ -1189,10 +1189,8 @@ class Executor:
             # and the disjunction of the surviving branch conditions
             common = len(st.pc)
             extra = [alive] if (alive is not True and len(results) != len(conds)) else []
-            # keep per-branch learned assertions as implications
-            for c, s in results:
-                for p in s.pc[common + (0 if c is True else 1):]:
-                    extra.append(z3.Implies(mk_bool(c), mk_bool(p)))
+            # facts assumed inside a branch (after its panic obligations were recorded) are dropped at the join:
+            # fewer assumptions can only make later obligations harder to discharge, never easier
             st.pc = st.pc[:common] + extra
         return J
 
@@ -1294,8 +1292,11 @@ class Executor:
                             return -1
             else:
                 # free function or trait default method
-                if f.name == _strip_generics(callee) or f.name == callee:
+                cs_ = _strip_generics(callee)
+                if f.name == cs_ or f.name == callee:
                     sc += 5
+                elif not m and (f.name.endswith('::' + cs_) or cs_.endswith('::' + f.name)) and 'verif' not in f.name:
+                    sc += 4       # the MIR printer qualifies names only as far as needed for uniqueness
                 elif trait and f.name == trait + '::' + meth:
                     sc += 1
                 elif selfty and f.name == _strip_generics(selfty).rsplit('::', 1)[-1] + '::' + meth:
